@@ -2,7 +2,7 @@ open M_c02
 (*#include conv*)
 (* C02 model driver.  Case lines (same as harness/h_rec.c; the harness ignores the state fields it can read itself):
      run  <session-key> | <fam> <msz> <key> <mackey> <iv> <seq-hex> <maj> <min> <expl> <maxfrag> | <wire-hex>
-     seal <session-key> | <fam> <msz> <key> <mackey> <iv> <seq-hex> <maj> <min> <expl> <maxfrag> | <typ> <pt-hex> <pad>
+     seal <session-key> | <fam> <msz> <key> <mackey> <iv> <seq-hex> <maj> <min> <expl> <maxfrag> | <typ> <pt-hex> <pad | b<blocksize>>
    fam: cbc gcm12 chacha12 gcm13 chacha13.
    Result of run: one token per event (D:<hex> application data, T<typ>:<hex> other verified content, F:<alert>, S, R, P, X)
    followed by seq=<hex>.  Result of seal: the record body in hex. *)
@@ -45,8 +45,12 @@ let () = iter_lines (fun l ->
             | FCbc -> i_seal_cbc m s [] ty p
             | FGcm12 -> i_seal_gcm12 s ty p
             | FChacha12 -> i_seal_chacha12 s ty p
-            | FGcm13 -> i_seal_tls13 true s (nat_of_int (int_of_string pad)) ty p
-            | FChacha13 -> i_seal_tls13 false s (nat_of_int (int_of_string pad)) ty p) in
+            | FGcm13 | FChacha13 ->
+              let g = (f = FGcm13) in
+              (* pad = <n> zero bytes, or b<bs> = what tls13GetPadLen computes for block size bs *)
+              if String.length pad > 1 && pad.[0] = 'b'
+              then i_seal_tls13_block g s (n_of_int (int_of_string (String.sub pad 1 (String.length pad - 1)))) ty p
+              else i_seal_tls13 g s (nat_of_int (int_of_string pad)) ty p) in
           hx body
         | _ -> "BADCASE")
      | _ -> "BADCASE")
